@@ -452,6 +452,10 @@ def _standard_check(prop_id, tier, seed, spec):
             replay = write_replay(prop_id, payload)
             vio_line = "VIOLATION property=%s replay=%s no-failing-input-found" % (prop_id, replay)
 
+    for o in unknown_oracle[:6]:
+        print("ORACLE-FAIL property=%s key=%s reason=%s input=%s" % (prop_id, o.get("key"), str(o.get("reason"))[:300], json.dumps(o.get("input"), default=str)[:300]))
+    for b in broken[:4]:
+        print("BROKEN property=%s what=%s detail=%s" % (prop_id, b.get("what"), str(b.get("detail") or b.get("monitor_diagnosis") or "")[:400]))
     for key, o in sorted(known_hit.items()):
         print("KNOWN-FINDING: property=%s %s: %s" % (prop_id, key, known_keys[key].get("what", o.get("reason", ""))))
 
